@@ -236,3 +236,550 @@ TWINS = [
             "        data_start = 0\n        if start:\n            match = LINE_BREAK_RE.match(data)\n            data_start = t.cast(t.Match[bytes], match).end()\n"),
         (M, _HOLD_A, "            tail = data[data_start:]\n            data_end = del_index = data_start + self.last_newline(tail)\n            # If amount of data")]},
 ]
+
+# ---------------------------------------------------------------------------
+# round 2: further spellings of the same meaning (each neutral one confirmed by a differential run over chunk schedules),
+# and for every newly accepted shape a defect written in that shape
+
+MUTANTS += [
+    {"name": 'flag-drain-stops-at-data-events', "expect": 'R1.3', "edits": [
+        (F, '            event = parser.next_event()\n            while not isinstance(event, (Epilogue, NeedData)):\n',
+            '            event = parser.next_event()\n            more = not isinstance(event, (Epilogue, NeedData))\n            while more:\n'),
+        (F, '\n                event = parser.next_event()\n\n        return self.cls(fields), self.cls(files)',
+            '\n                event = parser.next_event()\n                more = not isinstance(event, (Epilogue, NeedData, Data))\n\n        return self.cls(fields), self.cls(files)'),
+        (F, 'from .sansio.multipart import Data\n',
+            'from .sansio.multipart import Data\n'),
+    ]},
+    {"name": 'predicate-helper-treats-data-as-terminal', "expect": 'R1.3', "edits": [
+        (F, '            event = parser.next_event()\n            while not isinstance(event, (Epilogue, NeedData)):\n',
+            '            event = parser.next_event()\n            while not _is_terminal(event):\n'),
+        (F, 'def _chunk_iter(read: t.Callable[[int], bytes], size: int) -> t.Iterator[bytes | None]:',
+            'def _is_terminal(event: Event) -> bool:\n    if isinstance(event, NeedData):\n        return True\n    return isinstance(event, (Epilogue, Data))\n\n\ndef _chunk_iter(read: t.Callable[[int], bytes], size: int) -> t.Iterator[bytes | None]:'),
+    ]},
+    {"name": 'walrus-drain-is-an-if', "expect": 'R1.3', "edits": [
+        (F, '            event = parser.next_event()\n            while not isinstance(event, (Epilogue, NeedData)):\n',
+            '            if not isinstance(event := parser.next_event(), (Epilogue, NeedData)):\n'),
+        (F, '\n                event = parser.next_event()\n\n        return self.cls(fields), self.cls(files)',
+            '\n        return self.cls(fields), self.cls(files)'),
+    ]},
+    {"name": 'generator-drain-stops-at-data-events', "expect": 'R1.3', "edits": [
+        (F, '            event = parser.next_event()\n            while not isinstance(event, (Epilogue, NeedData)):\n',
+            '            for event in _events(parser):\n'),
+        (F, 'from .sansio.multipart import NeedData\n',
+            'from .sansio.multipart import NeedData\n'),
+        (F, '\n                event = parser.next_event()\n\n        return self.cls(fields), self.cls(files)',
+            '\n        return self.cls(fields), self.cls(files)'),
+        (F, 'def _chunk_iter(read: t.Callable[[int], bytes], size: int) -> t.Iterator[bytes | None]:',
+            'def _events(decoder: MultipartDecoder) -> t.Iterator[Event]:\n    while True:\n        event = decoder.next_event()\n        if isinstance(event, (Epilogue, NeedData, Data)):\n            return\n        yield event\n\n\ndef _chunk_iter(read: t.Callable[[int], bytes], size: int) -> t.Iterator[bytes | None]:'),
+    ]},
+    {"name": 'exact-type-drain-stops-at-data-events', "expect": 'R1.3', "edits": [
+        (F, '            event = parser.next_event()\n            while not isinstance(event, (Epilogue, NeedData)):\n',
+            '            event = parser.next_event()\n            while type(event) not in (Epilogue, NeedData, Data):\n'),
+    ]},
+    {"name": 'cached-methods-one-event-per-chunk', "expect": 'R1.3', "edits": [
+        (F, '        for data in _chunk_iter(stream.read, self.buffer_size):\n            parser.receive_data(data)\n',
+            '        feed = parser.receive_data\n        next_event = parser.next_event\n        for data in _chunk_iter(stream.read, self.buffer_size):\n            feed(data)\n'),
+        (F, '            event = parser.next_event()\n            while not isinstance(event, (Epilogue, NeedData)):\n',
+            '            event = next_event()\n            if not isinstance(event, (Epilogue, NeedData)):\n'),
+        (F, '\n                event = parser.next_event()\n\n        return self.cls(fields), self.cls(files)',
+            '\n                event = next_event()\n\n        return self.cls(fields), self.cls(files)'),
+    ]},
+    {"name": 'feed-helper-strips-the-chunk', "expect": 'R1.3', "edits": [
+        (F, '            parser.receive_data(data)\n',
+            '            self._feed(parser, data)\n'),
+        (F, '    def parse(\n        self, stream: t.IO[bytes], boundary: bytes, content_length: int | None\n',
+            '    def _feed(self, decoder: MultipartDecoder, chunk: bytes | None) -> None:\n        if chunk is not None:\n            chunk = chunk.lstrip()\n        decoder.receive_data(chunk)\n\n    def parse(\n        self, stream: t.IO[bytes], boundary: bytes, content_length: int | None\n'),
+    ]},
+    {"name": 'prime-and-refetch-reader-stops-on-short-read', "expect": 'R1.3', "edits": [
+        (F, '    while True:\n        data = read(size)\n\n        if not data:\n            break\n\n        yield data\n',
+            '    data = read(size)\n\n    while len(data) == size:\n        yield data\n        data = read(size)\n'),
+    ]},
+    {"name": 'sentinel-reader-drops-short-reads', "expect": 'R1.3', "edits": [
+        (F, '    while True:\n        data = read(size)\n\n        if not data:\n            break\n\n        yield data\n',
+            '    for data in iter(lambda: read(size), b""):\n        if len(data) < size:\n            break\n\n        yield data\n'),
+    ]},
+    {"name": 'chunk-stripped-through-a-local', "expect": 'R1.3', "edits": [
+        (F, '    while True:\n        data = read(size)\n\n        if not data:\n            break\n\n        yield data\n',
+            '    while True:\n        data = read(size)\n\n        if not data:\n            break\n\n        data = data.rstrip()\n        yield data\n'),
+    ]},
+    {"name": 'state-copy-shape-no-reset-after-headers', "expect": 'R1.2', "edits": [
+        (M, '        event: Event = NEED_DATA\n\n        if self.state == State.PREAMBLE:',
+            '        event: Event = NEED_DATA\n        state = self.state\n\n        if state == State.PREAMBLE:'),
+        (M, '        elif self.state == State.PART:',
+            '        elif state == State.PART:'),
+        (M, '                self.state = State.DATA_START\n                self._search_position = 0\n',
+            '                self.state = State.DATA_START\n'),
+    ]},
+    {"name": 'setter-shape-no-reset-after-headers', "expect": 'R1.2', "edits": [
+        (M, '                self.state = State.DATA_START\n                self._search_position = 0\n',
+            '                self._enter(State.DATA_START)\n'),
+        (M, '    def _parse_headers(self, data: bytes) -> Headers:',
+            '    def _enter(self, state: State) -> None:\n        self.state = state\n\n    def _parse_headers(self, data: bytes) -> Headers:'),
+    ]},
+    {"name": 'module-function-state-no-reset-after-preamble', "expect": 'R1.2', "edits": [
+        (M, '                if match.group(1).startswith(b"--"):\n                    self.state = State.EPILOGUE\n                else:\n                    self.state = State.PART\n                data = bytes(self.buffer[: match.start()])',
+            '                self.state = _after_boundary(match.group(1))\n                data = bytes(self.buffer[: match.start()])'),
+        (M, 'class MultipartDecoder:\n',
+            'def _after_boundary(tail: bytes) -> State:\n    return State.EPILOGUE if tail.startswith(b"--") else State.PART\n\n\nclass MultipartDecoder:\n'),
+        (M, '                event = Preamble(data=data)\n                self._search_position = 0\n',
+            '                event = Preamble(data=data)\n'),
+    ]},
+    {"name": 'static-helper-state-no-reset-after-preamble', "expect": 'R1.2', "edits": [
+        (M, '                if match.group(1).startswith(b"--"):\n                    self.state = State.EPILOGUE\n                else:\n                    self.state = State.PART\n                data = bytes(self.buffer[: match.start()])',
+            '                self.state = self._after_boundary(match)\n                data = bytes(self.buffer[: match.start()])'),
+        (M, '                event = Preamble(data=data)\n                self._search_position = 0\n',
+            '                event = Preamble(data=data)\n'),
+        (M, '    def _parse_headers(self, data: bytes) -> Headers:',
+            '    @staticmethod\n    def _after_boundary(match: t.Match[bytes]) -> State:\n        if match.group(1).startswith(b"--"):\n            return State.EPILOGUE\n\n        return State.PART\n\n    def _parse_headers(self, data: bytes) -> Headers:'),
+    ]},
+    {"name": 'buffer-copy-shape-no-reset-after-preamble', "expect": 'R1.2', "edits": [
+        (M, '                event = Preamble(data=data)\n                self._search_position = 0\n',
+            '                event = Preamble(data=data)\n'),
+        (M, '        event: Event = NEED_DATA\n\n        if self.state == State.PREAMBLE:\n            match = self.preamble_re.search(self.buffer, self._search_position)\n',
+            '        event: Event = NEED_DATA\n        buffer = self.buffer\n\n        if self.state == State.PREAMBLE:\n            match = self.preamble_re.search(buffer, self._search_position)\n'),
+        (M, '                data = bytes(self.buffer[: match.start()])\n                del self.buffer[: match.end()]\n',
+            '                data = bytes(buffer[: match.start()])\n                del buffer[: match.end()]\n'),
+        (M, '                    0, len(self.buffer) - len(self.boundary) - SEARCH_EXTRA_LENGTH\n',
+            '                    0, len(buffer) - len(self.boundary) - SEARCH_EXTRA_LENGTH\n'),
+        (M, '            match = BLANK_LINE_RE.search(self.buffer, self._search_position)\n',
+            '            match = BLANK_LINE_RE.search(buffer, self._search_position)\n'),
+        (M, '                headers = self._parse_headers(self.buffer[: match.start()])',
+            '                headers = self._parse_headers(buffer[: match.start()])'),
+        (M, '                del self.buffer[:headers_end]\n',
+            '                del buffer[:headers_end]\n'),
+        (M, '                self._search_position = max(0, len(self.buffer) - SEARCH_EXTRA_LENGTH)\n',
+            '                self._search_position = max(0, len(buffer) - SEARCH_EXTRA_LENGTH)\n'),
+        (M, '            data, del_index, more_data = self._parse_data(self.buffer, start=True)\n            del self.buffer[:del_index]\n',
+            '            data, del_index, more_data = self._parse_data(buffer, start=True)\n            del buffer[:del_index]\n'),
+        (M, '            data, del_index, more_data = self._parse_data(self.buffer, start=False)\n            del self.buffer[:del_index]\n',
+            '            data, del_index, more_data = self._parse_data(buffer, start=False)\n            del buffer[:del_index]\n'),
+        (M, '            event = Epilogue(data=bytes(self.buffer))\n            del self.buffer[:]\n',
+            '            event = Epilogue(data=bytes(buffer))\n            del buffer[:]\n'),
+    ]},
+    {"name": 'offset-copy-shape-no-reset-after-headers', "expect": 'R1.2', "edits": [
+        (M, '                self.state = State.DATA_START\n                self._search_position = 0\n',
+            '                self.state = State.DATA_START\n'),
+        (M, '        event: Event = NEED_DATA\n\n        if self.state == State.PREAMBLE:\n            match = self.preamble_re.search(self.buffer, self._search_position)\n',
+            '        event: Event = NEED_DATA\n        position = self._search_position\n\n        if self.state == State.PREAMBLE:\n            match = self.preamble_re.search(self.buffer, position)\n'),
+        (M, '            match = BLANK_LINE_RE.search(self.buffer, self._search_position)\n',
+            '            match = BLANK_LINE_RE.search(self.buffer, position)\n'),
+    ]},
+    {"name": 'conditional-expression-release-threshold-without-line-break', "expect": 'R1.4', "edits": [
+        (M, '            data_end = del_index = self.last_newline(data[data_start:]) + data_start\n            # If amount of data after last newline is far from\n            # possible length of partial boundary, we should\n            # assume that there is no partial boundary in the buffer\n            # and return all pending data.\n            if (len(data) - data_end) > len(b"\\n" + boundary):\n                data_end = del_index = len(data)\n',
+            '            hold = self.last_newline(data[data_start:]) + data_start\n            data_end = del_index = len(data) if (len(data) - hold) > len(boundary) else hold\n'),
+    ]},
+    {"name": 'span-shape-threshold-without-line-break', "expect": 'R1.4', "edits": [
+        (M, '                data_end = match.start()\n                del_index = match.end()\n',
+            '                data_end, del_index = match.span()\n'),
+        (M, '            if (len(data) - data_end) > len(b"\\n" + boundary):',
+            '            if (len(data) - data_end) > len(boundary):'),
+    ]},
+    {"name": 'static-anchor-offset-forgotten', "expect": 'R1.7', "edits": [
+        (M, '    def last_newline(self, data: bytes) -> int:',
+            '    @staticmethod\n    def last_newline(data: bytes) -> int:'),
+        (M, '            data_end = del_index = self.last_newline(data[data_start:]) + data_start\n            # If',
+            '            data_end = del_index = MultipartDecoder.last_newline(data[data_start:])\n            # If'),
+    ]},
+    {"name": 'conditional-clamp-window-forgets-boundary-length', "expect": 'R1.1', "edits": [
+        (M, '                self._search_position = max(\n                    0, len(self.buffer) - len(self.boundary) - SEARCH_EXTRA_LENGTH\n                )\n',
+            '                position = len(self.buffer) - SEARCH_EXTRA_LENGTH\n                self._search_position = position if position > 0 else 0\n'),
+    ]},
+]
+
+TWINS += [
+    {"name": 'drain-loop-continues-on-a-flag', "edits": [
+        (F, '            event = parser.next_event()\n            while not isinstance(event, (Epilogue, NeedData)):\n',
+            '            event = parser.next_event()\n            more = not isinstance(event, (Epilogue, NeedData))\n            while more:\n'),
+        (F, '\n                event = parser.next_event()\n\n        return self.cls(fields), self.cls(files)',
+            '\n                event = parser.next_event()\n                more = not isinstance(event, (Epilogue, NeedData))\n\n        return self.cls(fields), self.cls(files)'),
+    ]},
+    {"name": 'drain-loop-flag-set-from-two-isinstance-calls', "edits": [
+        (F, '            event = parser.next_event()\n            while not isinstance(event, (Epilogue, NeedData)):\n',
+            '            done = False\n            while not done:\n                event = parser.next_event()\n                done = isinstance(event, Epilogue) or isinstance(event, NeedData)\n'),
+        (F, '\n                event = parser.next_event()\n\n        return self.cls(fields), self.cls(files)',
+            '\n        return self.cls(fields), self.cls(files)'),
+    ]},
+    {"name": 'drain-test-in-a-predicate-helper', "edits": [
+        (F, '            event = parser.next_event()\n            while not isinstance(event, (Epilogue, NeedData)):\n',
+            '            event = parser.next_event()\n            while not _is_terminal(event):\n'),
+        (F, 'def _chunk_iter(read: t.Callable[[int], bytes], size: int) -> t.Iterator[bytes | None]:',
+            'def _is_terminal(event: Event) -> bool:\n    if isinstance(event, NeedData):\n        return True\n    return isinstance(event, Epilogue)\n\n\ndef _chunk_iter(read: t.Callable[[int], bytes], size: int) -> t.Iterator[bytes | None]:'),
+    ]},
+    {"name": 'drain-test-on-exact-type', "edits": [
+        (F, '            event = parser.next_event()\n            while not isinstance(event, (Epilogue, NeedData)):\n',
+            '            event = parser.next_event()\n            while type(event) not in (Epilogue, NeedData):\n'),
+    ]},
+    {"name": 'drain-test-against-the-need-data-constant', "edits": [
+        (F, '            event = parser.next_event()\n            while not isinstance(event, (Epilogue, NeedData)):\n',
+            '            event = parser.next_event()\n            while event is not NEED_DATA and not isinstance(event, Epilogue):\n'),
+        (F, 'from .sansio.multipart import NeedData\n',
+            'from .sansio.multipart import NEED_DATA\nfrom .sansio.multipart import NeedData\n'),
+    ]},
+    {"name": 'drain-loop-walrus-in-the-header', "edits": [
+        (F, '            event = parser.next_event()\n            while not isinstance(event, (Epilogue, NeedData)):\n',
+            '            while not isinstance(event := parser.next_event(), (Epilogue, NeedData)):\n'),
+        (F, '\n                event = parser.next_event()\n\n        return self.cls(fields), self.cls(files)',
+            '\n        return self.cls(fields), self.cls(files)'),
+    ]},
+    {"name": 'decoder-methods-cached-in-locals', "edits": [
+        (F, '        for data in _chunk_iter(stream.read, self.buffer_size):\n            parser.receive_data(data)\n',
+            '        feed = parser.receive_data\n        next_event = parser.next_event\n        for data in _chunk_iter(stream.read, self.buffer_size):\n            feed(data)\n'),
+        (F, '            event = parser.next_event()\n            while not isinstance(event, (Epilogue, NeedData)):\n',
+            '            event = next_event()\n            while not isinstance(event, (Epilogue, NeedData)):\n'),
+        (F, '\n                event = parser.next_event()\n\n        return self.cls(fields), self.cls(files)',
+            '\n                event = next_event()\n\n        return self.cls(fields), self.cls(files)'),
+    ]},
+    {"name": 'drain-loop-as-generator-helper', "edits": [
+        (F, '            event = parser.next_event()\n            while not isinstance(event, (Epilogue, NeedData)):\n',
+            '            for event in _events(parser):\n'),
+        (F, '\n                event = parser.next_event()\n\n        return self.cls(fields), self.cls(files)',
+            '\n        return self.cls(fields), self.cls(files)'),
+        (F, 'def _chunk_iter(read: t.Callable[[int], bytes], size: int) -> t.Iterator[bytes | None]:',
+            'def _events(decoder: MultipartDecoder) -> t.Iterator[Event]:\n    while True:\n        event = decoder.next_event()\n        if isinstance(event, (Epilogue, NeedData)):\n            return\n        yield event\n\n\ndef _chunk_iter(read: t.Callable[[int], bytes], size: int) -> t.Iterator[bytes | None]:'),
+    ]},
+    {"name": 'chunk-fed-through-a-helper', "edits": [
+        (F, '            parser.receive_data(data)\n',
+            '            self._feed(parser, data)\n'),
+        (F, '    def parse(\n        self, stream: t.IO[bytes], boundary: bytes, content_length: int | None\n',
+            '    def _feed(self, decoder: MultipartDecoder, chunk: bytes | None) -> None:\n        decoder.receive_data(chunk)\n\n    def parse(\n        self, stream: t.IO[bytes], boundary: bytes, content_length: int | None\n'),
+    ]},
+    {"name": 'chunk-generator-held-in-a-local', "edits": [
+        (F, '        for data in _chunk_iter(stream.read, self.buffer_size):\n',
+            '        chunks = _chunk_iter(stream.read, self.buffer_size)\n\n        for data in chunks:\n'),
+    ]},
+    {"name": 'decoder-also-kept-on-self', "edits": [
+        (F, '        parser = MultipartDecoder(\n',
+            '        self._decoder = parser = MultipartDecoder(\n'),
+    ]},
+    {"name": 'drain-loop-iter-with-sentinel', "edits": [
+        (F, '            event = parser.next_event()\n            while not isinstance(event, (Epilogue, NeedData)):\n',
+            '            for event in iter(parser.next_event, NEED_DATA):\n                if isinstance(event, Epilogue):\n                    break\n'),
+        (F, '\n                event = parser.next_event()\n\n        return self.cls(fields), self.cls(files)',
+            '\n        return self.cls(fields), self.cls(files)'),
+        (F, 'from .sansio.multipart import NeedData\n',
+            'from .sansio.multipart import NEED_DATA\nfrom .sansio.multipart import NeedData\n'),
+    ]},
+    {"name": 'next-event-through-a-module-helper', "edits": [
+        (F, '            event = parser.next_event()\n            while not isinstance(event, (Epilogue, NeedData)):\n',
+            '            event = _next(parser)\n            while not isinstance(event, (Epilogue, NeedData)):\n'),
+        (F, '\n                event = parser.next_event()\n\n        return self.cls(fields), self.cls(files)',
+            '\n                event = _next(parser)\n\n        return self.cls(fields), self.cls(files)'),
+        (F, 'def _chunk_iter(read: t.Callable[[int], bytes], size: int) -> t.Iterator[bytes | None]:',
+            'def _next(decoder: MultipartDecoder) -> Event:\n    return decoder.next_event()\n\n\ndef _chunk_iter(read: t.Callable[[int], bytes], size: int) -> t.Iterator[bytes | None]:'),
+    ]},
+    {"name": 'decoder-built-by-a-helper', "edits": [
+        (F, '        parser = MultipartDecoder(\n            boundary,\n            max_form_memory_size=self.max_form_memory_size,\n            max_parts=self.max_form_parts,\n        )\n',
+            '        parser = self._decoder_for(boundary)\n'),
+        (F, '    def parse(\n        self, stream: t.IO[bytes], boundary: bytes, content_length: int | None\n',
+            '    def _decoder_for(self, boundary: bytes) -> MultipartDecoder:\n        return MultipartDecoder(\n            boundary,\n            max_form_memory_size=self.max_form_memory_size,\n            max_parts=self.max_form_parts,\n        )\n\n    def parse(\n        self, stream: t.IO[bytes], boundary: bytes, content_length: int | None\n'),
+    ]},
+    {"name": 'chunk-reader-prime-and-refetch', "edits": [
+        (F, '    while True:\n        data = read(size)\n\n        if not data:\n            break\n\n        yield data\n',
+            '    data = read(size)\n\n    while data:\n        yield data\n        data = read(size)\n'),
+    ]},
+    {"name": 'chunk-reader-iter-with-empty-sentinel', "edits": [
+        (F, '    while True:\n        data = read(size)\n\n        if not data:\n            break\n\n        yield data\n',
+            '    for data in iter(lambda: read(size), b""):\n        yield data\n'),
+    ]},
+    {"name": 'chunk-reader-yield-from-partial', "edits": [
+        (F, '    while True:\n        data = read(size)\n\n        if not data:\n            break\n\n        yield data\n',
+            '    yield from iter(partial(read, size), b"")\n'),
+        (F, 'import typing as t\n',
+            'import typing as t\nfrom functools import partial\n'),
+    ]},
+    {"name": 'chunk-reader-if-else', "edits": [
+        (F, '    while True:\n        data = read(size)\n\n        if not data:\n            break\n\n        yield data\n',
+            '    while True:\n        data = read(size)\n\n        if data:\n            yield data\n        else:\n            break\n'),
+    ]},
+    {"name": 'chunk-reader-end-signal-before-return', "edits": [
+        (F, '    while True:\n        data = read(size)\n\n        if not data:\n            break\n\n        yield data\n',
+            '    while True:\n        data = read(size)\n\n        if len(data) < 1:\n            yield None\n            return\n\n        yield data\n'),
+        (F, '        yield data\n\n    yield None\n',
+            '        yield data\n'),
+    ]},
+    {"name": 'chunk-reader-eof-flag', "edits": [
+        (F, '    while True:\n        data = read(size)\n\n        if not data:\n            break\n\n        yield data\n',
+            '    eof = False\n\n    while not eof:\n        data = read(size)\n        eof = not data\n\n        if not eof:\n            yield data\n'),
+    ]},
+    {"name": 'chunk-reader-read-through-local-alias', "edits": [
+        (F, '    while True:\n        data = read(size)\n\n        if not data:\n            break\n\n        yield data\n',
+            '    fetch = read\n\n    while True:\n        data = fetch(size)\n\n        if data == b"":\n            break\n\n        yield data\n'),
+    ]},
+    {"name": 'state-tested-through-a-local-copy-and-flipped-sides', "edits": [
+        (M, '        event: Event = NEED_DATA\n\n        if self.state == State.PREAMBLE:',
+            '        event: Event = NEED_DATA\n        state = self.state\n\n        if state == State.PREAMBLE:'),
+        (M, '        elif self.state == State.PART:',
+            '        elif state == State.PART:'),
+        (M, '        elif self.state == State.DATA_START:',
+            '        elif state is State.DATA_START:'),
+        (M, '        elif self.state == State.DATA:',
+            '        elif State.DATA == state:'),
+        (M, '        elif self.state == State.EPILOGUE and self.complete:',
+            '        elif state == State.EPILOGUE and self.complete:'),
+    ]},
+    {"name": 'state-set-through-a-setter-helper', "edits": [
+        (M, '                self.state = State.DATA_START\n',
+            '                self._enter(State.DATA_START)\n'),
+        (M, '                self.state = State.DATA\n',
+            '                self._enter(State.DATA)\n'),
+        (M, '            del self.buffer[:]\n            self.state = State.COMPLETE\n',
+            '            del self.buffer[:]\n            self._enter(State.COMPLETE)\n'),
+        (M, '                if match.group(1).startswith(b"--"):\n                    self.state = State.EPILOGUE\n                else:\n                    self.state = State.PART\n                data = bytes(self.buffer[: match.start()])',
+            '                self._enter(State.EPILOGUE if match.group(1).startswith(b"--") else State.PART)\n                data = bytes(self.buffer[: match.start()])'),
+        (M, '                if match.group(1).startswith(b"--"):\n                    self.state = State.EPILOGUE\n                else:\n                    self.state = State.PART\n                data_end = match.start()',
+            '                self._enter(State.EPILOGUE if match.group(1).startswith(b"--") else State.PART)\n                data_end = match.start()'),
+        (M, '    def _parse_headers(self, data: bytes) -> Headers:',
+            '    def _enter(self, state: State) -> None:\n        self.state = state\n\n    def _parse_headers(self, data: bytes) -> Headers:'),
+    ]},
+    {"name": 'state-chosen-into-a-local-first', "edits": [
+        (M, '                if match.group(1).startswith(b"--"):\n                    self.state = State.EPILOGUE\n                else:\n                    self.state = State.PART\n                data = bytes(self.buffer[: match.start()])',
+            '                if match.group(1).startswith(b"--"):\n                    following = State.EPILOGUE\n                else:\n                    following = State.PART\n                self.state = following\n                data = bytes(self.buffer[: match.start()])'),
+    ]},
+    {"name": 'state-looked-up-in-a-tuple', "edits": [
+        (M, '                if match.group(1).startswith(b"--"):\n                    self.state = State.EPILOGUE\n                else:\n                    self.state = State.PART\n                data = bytes(self.buffer[: match.start()])',
+            '                closing = match.group(1).startswith(b"--")\n                self.state = (State.PART, State.EPILOGUE)[closing]\n                data = bytes(self.buffer[: match.start()])'),
+    ]},
+    {"name": 'state-returned-by-a-module-function', "edits": [
+        (M, '                if match.group(1).startswith(b"--"):\n                    self.state = State.EPILOGUE\n                else:\n                    self.state = State.PART\n                data = bytes(self.buffer[: match.start()])',
+            '                self.state = _after_boundary(match.group(1))\n                data = bytes(self.buffer[: match.start()])'),
+        (M, 'class MultipartDecoder:\n',
+            'def _after_boundary(tail: bytes) -> State:\n    return State.EPILOGUE if tail.startswith(b"--") else State.PART\n\n\nclass MultipartDecoder:\n'),
+    ]},
+    {"name": 'state-membership-tests', "edits": [
+        (M, '        if self.state == State.PREAMBLE:\n            match = self.preamble_re',
+            '        if self.state in {State.PREAMBLE}:\n            match = self.preamble_re'),
+        (M, '        elif self.state == State.PART:',
+            '        elif self.state not in (State.DATA_START, State.DATA, State.EPILOGUE, State.COMPLETE, State.PREAMBLE):'),
+    ]},
+    {"name": 'state-returned-by-a-static-helper-on-the-match', "edits": [
+        (M, '                if match.group(1).startswith(b"--"):\n                    self.state = State.EPILOGUE\n                else:\n                    self.state = State.PART\n                data = bytes(self.buffer[: match.start()])',
+            '                self.state = self._after_boundary(match)\n                data = bytes(self.buffer[: match.start()])'),
+        (M, '                if match.group(1).startswith(b"--"):\n                    self.state = State.EPILOGUE\n                else:\n                    self.state = State.PART\n                data_end = match.start()',
+            '                self.state = self._after_boundary(match)\n                data_end = match.start()'),
+        (M, '    def _parse_headers(self, data: bytes) -> Headers:',
+            '    @staticmethod\n    def _after_boundary(match: t.Match[bytes]) -> State:\n        if match.group(1).startswith(b"--"):\n            return State.EPILOGUE\n\n        return State.PART\n\n    def _parse_headers(self, data: bytes) -> Headers:'),
+    ]},
+    {"name": 'release-chosen-by-a-conditional-expression-on-a-flag', "edits": [
+        (M, '            data_end = del_index = self.last_newline(data[data_start:]) + data_start\n            # If amount of data after last newline is far from\n            # possible length of partial boundary, we should\n            # assume that there is no partial boundary in the buffer\n            # and return all pending data.\n            if (len(data) - data_end) > len(b"\\n" + boundary):\n                data_end = del_index = len(data)\n',
+            '            hold = self.last_newline(data[data_start:]) + data_start\n            far = (len(data) - hold) > len(b"\\n" + boundary)\n            data_end = del_index = len(data) if far else hold\n'),
+    ]},
+    {"name": 'release-chosen-by-a-conditional-expression', "edits": [
+        (M, '            data_end = del_index = self.last_newline(data[data_start:]) + data_start\n            # If amount of data after last newline is far from\n            # possible length of partial boundary, we should\n            # assume that there is no partial boundary in the buffer\n            # and return all pending data.\n            if (len(data) - data_end) > len(b"\\n" + boundary):\n                data_end = del_index = len(data)\n',
+            '            hold = self.last_newline(data[data_start:]) + data_start\n            data_end = del_index = len(data) if (len(data) - hold) > len(b"\\n" + boundary) else hold\n'),
+    ]},
+    {"name": 'presence-test-through-a-local', "edits": [
+        (M, '        if self.buffer.find(boundary) == -1:',
+            '        index = data.find(boundary)\n\n        if index < 0:'),
+    ]},
+    {"name": 'flush-test-flipped-with-pass-branch', "edits": [
+        (M, '            if (len(data) - data_end) > len(b"\\n" + boundary):\n                data_end = del_index = len(data)\n',
+            '            if len(b"\\n" + boundary) >= (len(data) - data_end):\n                pass\n            else:\n                data_end = del_index = len(data)\n'),
+    ]},
+    {"name": 'anchor-as-staticmethod-called-on-the-class', "edits": [
+        (M, '    def last_newline(self, data: bytes) -> int:',
+            '    @staticmethod\n    def last_newline(data: bytes) -> int:'),
+        (M, '            data_end = del_index = self.last_newline(data[data_start:]) + data_start\n            # If',
+            '            data_end = del_index = MultipartDecoder.last_newline(data[data_start:]) + data_start\n            # If'),
+    ]},
+    {"name": 'anchor-as-module-function', "edits": [
+        (M, '    def last_newline(self, data: bytes) -> int:\n        try:\n            last_nl = data.rindex(b"\\n")\n        except ValueError:\n            last_nl = len(data)\n        try:\n            last_cr = data.rindex(b"\\r")\n        except ValueError:\n            last_cr = len(data)\n\n        return min(last_nl, last_cr)\n\n',
+            ''),
+        (M, 'class MultipartDecoder:\n',
+            'def _last_newline(data: bytes) -> int:\n    try:\n        last_nl = data.rindex(b"\\n")\n    except ValueError:\n        last_nl = len(data)\n    try:\n        last_cr = data.rindex(b"\\r")\n    except ValueError:\n        last_cr = len(data)\n\n    return min(last_nl, last_cr)\n\n\nclass MultipartDecoder:\n'),
+        (M, '            data_end = del_index = self.last_newline(data[data_start:]) + data_start\n            # If',
+            '            data_end = del_index = _last_newline(data[data_start:]) + data_start\n            # If'),
+        (M, '                data_end = del_index = self.last_newline(data[data_start:]) + data_start\n            more_data',
+            '                data_end = del_index = _last_newline(data[data_start:]) + data_start\n            more_data'),
+    ]},
+    {"name": 'match-positions-by-tuple-assignment', "edits": [
+        (M, '                data_end = match.start()\n                del_index = match.end()\n',
+            '                data_end, del_index = match.start(), match.end()\n'),
+    ]},
+    {"name": 'match-positions-from-span', "edits": [
+        (M, '                data_end = match.start()\n                del_index = match.end()\n',
+            '                data_end, del_index = match.span()\n'),
+    ]},
+    {"name": 'window-clamped-by-a-conditional-expression', "edits": [
+        (M, '                self._search_position = max(\n                    0, len(self.buffer) - len(self.boundary) - SEARCH_EXTRA_LENGTH\n                )\n',
+            '                position = len(self.buffer) - len(self.boundary) - SEARCH_EXTRA_LENGTH\n                self._search_position = position if position > 0 else 0\n'),
+    ]},
+    {"name": 'window-clamped-by-a-flipped-conditional-expression', "edits": [
+        (M, '                self._search_position = max(\n                    0, len(self.buffer) - len(self.boundary) - SEARCH_EXTRA_LENGTH\n                )\n',
+            '                position = len(self.buffer) - len(self.boundary) - SEARCH_EXTRA_LENGTH\n                self._search_position = 0 if position < 0 else position\n'),
+    ]},
+    {"name": 'buffer-read-through-a-local-copy-of-the-reference', "edits": [
+        (M, '        event: Event = NEED_DATA\n\n        if self.state == State.PREAMBLE:\n            match = self.preamble_re.search(self.buffer, self._search_position)\n',
+            '        event: Event = NEED_DATA\n        buffer = self.buffer\n\n        if self.state == State.PREAMBLE:\n            match = self.preamble_re.search(buffer, self._search_position)\n'),
+        (M, '                data = bytes(self.buffer[: match.start()])\n                del self.buffer[: match.end()]\n',
+            '                data = bytes(buffer[: match.start()])\n                del buffer[: match.end()]\n'),
+        (M, '                    0, len(self.buffer) - len(self.boundary) - SEARCH_EXTRA_LENGTH\n',
+            '                    0, len(buffer) - len(self.boundary) - SEARCH_EXTRA_LENGTH\n'),
+        (M, '            match = BLANK_LINE_RE.search(self.buffer, self._search_position)\n',
+            '            match = BLANK_LINE_RE.search(buffer, self._search_position)\n'),
+        (M, '                headers = self._parse_headers(self.buffer[: match.start()])',
+            '                headers = self._parse_headers(buffer[: match.start()])'),
+        (M, '                del self.buffer[:headers_end]\n',
+            '                del buffer[:headers_end]\n'),
+        (M, '                self._search_position = max(0, len(self.buffer) - SEARCH_EXTRA_LENGTH)\n',
+            '                self._search_position = max(0, len(buffer) - SEARCH_EXTRA_LENGTH)\n'),
+        (M, '            data, del_index, more_data = self._parse_data(self.buffer, start=True)\n            del self.buffer[:del_index]\n',
+            '            data, del_index, more_data = self._parse_data(buffer, start=True)\n            del buffer[:del_index]\n'),
+        (M, '            data, del_index, more_data = self._parse_data(self.buffer, start=False)\n            del self.buffer[:del_index]\n',
+            '            data, del_index, more_data = self._parse_data(buffer, start=False)\n            del buffer[:del_index]\n'),
+        (M, '            event = Epilogue(data=bytes(self.buffer))\n            del self.buffer[:]\n',
+            '            event = Epilogue(data=bytes(buffer))\n            del buffer[:]\n'),
+    ]},
+    {"name": 'offset-read-through-a-local-copy', "edits": [
+        (M, '        event: Event = NEED_DATA\n\n        if self.state == State.PREAMBLE:\n            match = self.preamble_re.search(self.buffer, self._search_position)\n',
+            '        event: Event = NEED_DATA\n        position = self._search_position\n\n        if self.state == State.PREAMBLE:\n            match = self.preamble_re.search(self.buffer, position)\n'),
+        (M, '            match = BLANK_LINE_RE.search(self.buffer, self._search_position)\n',
+            '            match = BLANK_LINE_RE.search(self.buffer, position)\n'),
+    ]},
+]
+
+# ---------------------------------------------------------------------------
+# round 2 (continued): values hoisted into __init__, anchor written with a loop / comprehension, nested function
+
+MUTANTS += [
+    {"name": 'hoisted-search-tail-too-short', "expect": 'R1.1', "edits": [
+        (M, '        self._search_position = 0\n        self._parts_decoded = 0\n',
+            '        self._search_position = 0\n        self._parts_decoded = 0\n        self._preamble_tail = len(boundary) + 2\n'),
+        (M, '                self._search_position = max(\n                    0, len(self.buffer) - len(self.boundary) - SEARCH_EXTRA_LENGTH\n                )\n',
+            '                self._search_position = max(0, len(self.buffer) - self._preamble_tail)\n'),
+    ]},
+    {"name": 'hoisted-delimiter-threshold-without-line-break', "expect": 'R1.4', "edits": [
+        (M, '        self._search_position = 0\n        self._parts_decoded = 0\n',
+            '        self._search_position = 0\n        self._parts_decoded = 0\n        self._delimiter = b"--" + boundary\n'),
+        (M, '        boundary = b"--" + self.boundary\n\n        if self.buffer.find(boundary) == -1:',
+            '        if self.buffer.find(self._delimiter) == -1:'),
+        (M, '            if (len(data) - data_end) > len(b"\\n" + boundary):',
+            '            if (len(data) - data_end) > len(self._delimiter):'),
+    ]},
+    {"name": 'anchor-loop-shape-flush-in-lookalike-branch', "expect": 'R1.5', "edits": [
+        (M, '            else:\n                data_end = del_index = self.last_newline(data[data_start:]) + data_start\n            more_data = match is None\n',
+            '            else:\n                data_end = del_index = self.last_newline(data[data_start:]) + data_start\n                if (len(data) - data_end) > len(b"\\r\\n" + boundary + b"--"):\n                    data_end = del_index = len(data)\n            more_data = match is None\n'),
+        (M, '        try:\n            last_nl = data.rindex(b"\\n")\n        except ValueError:\n            last_nl = len(data)\n        try:\n            last_cr = data.rindex(b"\\r")\n        except ValueError:\n            last_cr = len(data)\n\n        return min(last_nl, last_cr)\n',
+            '        positions = []\n\n        for line_break in (b"\\n", b"\\r"):\n            try:\n                positions.append(data.rindex(line_break))\n            except ValueError:\n                positions.append(len(data))\n\n        return min(positions)\n'),
+    ]},
+    {"name": 'nested-fetch-one-event-per-chunk', "expect": 'R1.3', "edits": [
+        (F, '            while not isinstance(event, (Epilogue, NeedData)):\n',
+            '            if not isinstance(event, (Epilogue, NeedData)):\n'),
+        (F, '        for data in _chunk_iter(stream.read, self.buffer_size):\n            parser.receive_data(data)\n            event = parser.next_event()\n',
+            '        def fetch() -> Event:\n            return parser.next_event()\n\n        for data in _chunk_iter(stream.read, self.buffer_size):\n            parser.receive_data(data)\n            event = fetch()\n'),
+        (F, '\n                event = parser.next_event()\n\n        return self.cls(fields), self.cls(files)',
+            '\n                event = fetch()\n\n        return self.cls(fields), self.cls(files)'),
+    ]},
+]
+
+TWINS += [
+    {"name": 'search-tail-length-computed-once-in-init', "edits": [
+        (M, '        self._search_position = 0\n        self._parts_decoded = 0\n',
+            '        self._search_position = 0\n        self._parts_decoded = 0\n        self._preamble_tail = len(boundary) + SEARCH_EXTRA_LENGTH\n'),
+        (M, '                self._search_position = max(\n                    0, len(self.buffer) - len(self.boundary) - SEARCH_EXTRA_LENGTH\n                )\n',
+            '                self._search_position = max(0, len(self.buffer) - self._preamble_tail)\n'),
+    ]},
+    {"name": 'delimiter-text-computed-once-in-init', "edits": [
+        (M, '        self._search_position = 0\n        self._parts_decoded = 0\n',
+            '        self._search_position = 0\n        self._parts_decoded = 0\n        self._delimiter = b"--" + boundary\n'),
+        (M, '        boundary = b"--" + self.boundary\n\n        if self.buffer.find(boundary) == -1:',
+            '        if self.buffer.find(self._delimiter) == -1:'),
+        (M, '            if (len(data) - data_end) > len(b"\\n" + boundary):',
+            '            if (len(data) - data_end) > len(self._delimiter) + 1:'),
+    ]},
+    {"name": 'anchor-loop-over-the-line-break-bytes', "edits": [
+        (M, '        try:\n            last_nl = data.rindex(b"\\n")\n        except ValueError:\n            last_nl = len(data)\n        try:\n            last_cr = data.rindex(b"\\r")\n        except ValueError:\n            last_cr = len(data)\n\n        return min(last_nl, last_cr)\n',
+            '        positions = []\n\n        for line_break in (b"\\n", b"\\r"):\n            try:\n                positions.append(data.rindex(line_break))\n            except ValueError:\n                positions.append(len(data))\n\n        return min(positions)\n'),
+    ]},
+    {"name": 'anchor-min-over-a-generator-expression', "edits": [
+        (M, '        try:\n            last_nl = data.rindex(b"\\n")\n        except ValueError:\n            last_nl = len(data)\n        try:\n            last_cr = data.rindex(b"\\r")\n        except ValueError:\n            last_cr = len(data)\n\n        return min(last_nl, last_cr)\n',
+            '        return min(\n            data.rindex(c) if c in data else len(data) for c in (b"\\n", b"\\r")\n        )\n'),
+    ]},
+    {"name": 'anchor-running-minimum-in-a-loop', "edits": [
+        (M, '        try:\n            last_nl = data.rindex(b"\\n")\n        except ValueError:\n            last_nl = len(data)\n        try:\n            last_cr = data.rindex(b"\\r")\n        except ValueError:\n            last_cr = len(data)\n\n        return min(last_nl, last_cr)\n',
+            '        last = len(data)\n\n        for line_break in (b"\\n", b"\\r"):\n            index = data.rfind(line_break)\n\n            if index != -1 and index < last:\n                last = index\n\n        return last\n'),
+    ]},
+    {"name": 'next-event-through-a-nested-function', "edits": [
+        (F, '        for data in _chunk_iter(stream.read, self.buffer_size):\n            parser.receive_data(data)\n            event = parser.next_event()\n',
+            '        def fetch() -> Event:\n            return parser.next_event()\n\n        for data in _chunk_iter(stream.read, self.buffer_size):\n            parser.receive_data(data)\n            event = fetch()\n'),
+        (F, '\n                event = parser.next_event()\n\n        return self.cls(fields), self.cls(files)',
+            '\n                event = fetch()\n\n        return self.cls(fields), self.cls(files)'),
+    ]},
+]
+
+# ---------------------------------------------------------------------------
+# round 2 (continued): one-expression helpers read at the call site; next_event split into per-state helpers
+
+MUTANTS += [
+    {"name": 'hold-back-helper-forgets-the-offset', "expect": 'R1.7', "edits": [
+        (M, '            data_end = del_index = self.last_newline(data[data_start:]) + data_start\n            # If',
+            '            data_end = del_index = self._hold_back(data, data_start)\n            # If'),
+        (M, '                data_end = del_index = self.last_newline(data[data_start:]) + data_start\n            more_data',
+            '                data_end = del_index = self._hold_back(data, data_start)\n            more_data'),
+        (M, '    def receive_data(self, data: bytes | None) -> None:',
+            '    def _hold_back(self, data: bytes, start: int) -> int:\n        """Position of a possible partial boundary at the end of the data."""\n        return self.last_newline(data[start:])\n\n    def receive_data(self, data: bytes | None) -> None:'),
+    ]},
+    {"name": 'flush-test-helper-without-line-break', "expect": 'R1.4', "edits": [
+        (M, '            if (len(data) - data_end) > len(b"\\n" + boundary):\n',
+            '            if self._far_from_end(data, data_end, boundary):\n'),
+        (M, '    def receive_data(self, data: bytes | None) -> None:',
+            '    @staticmethod\n    def _far_from_end(data: bytes, position: int, delimiter: bytes) -> bool:\n        return (len(data) - position) > len(delimiter)\n\n    def receive_data(self, data: bytes | None) -> None:'),
+    ]},
+]
+
+TWINS += [
+    {"name": 'hold-back-position-in-a-one-expression-helper', "edits": [
+        (M, '            data_end = del_index = self.last_newline(data[data_start:]) + data_start\n            # If',
+            '            data_end = del_index = self._hold_back(data, data_start)\n            # If'),
+        (M, '                data_end = del_index = self.last_newline(data[data_start:]) + data_start\n            more_data',
+            '                data_end = del_index = self._hold_back(data, data_start)\n            more_data'),
+        (M, '    def receive_data(self, data: bytes | None) -> None:',
+            '    def _hold_back(self, data: bytes, start: int) -> int:\n        """Position of a possible partial boundary at the end of the data."""\n        return start + self.last_newline(data[start:])\n\n    def receive_data(self, data: bytes | None) -> None:'),
+    ]},
+    {"name": 'flush-test-in-a-one-expression-helper', "edits": [
+        (M, '            if (len(data) - data_end) > len(b"\\n" + boundary):\n',
+            '            if self._far_from_end(data, data_end, boundary):\n'),
+        (M, '    def receive_data(self, data: bytes | None) -> None:',
+            '    @staticmethod\n    def _far_from_end(data: bytes, position: int, delimiter: bytes) -> bool:\n        return (len(data) - position) > len(b"\\n" + delimiter)\n\n    def receive_data(self, data: bytes | None) -> None:'),
+    ]},
+    {"name": 'next-event-split-into-per-state-helpers', "edits": [
+        (M, '    def next_event(self) -> Event:\n        event: Event = NEED_DATA\n\n        if self.state == State.PREAMBLE:\n            match = self.preamble_re.search(self.buffer, self._search_position)\n            if match is not None:\n                if match.group(1).startswith(b"--"):\n                    self.state = State.EPILOGUE\n                else:\n                    self.state = State.PART\n                data = bytes(self.buffer[: match.start()])\n                del self.buffer[: match.end()]\n                event = Preamble(data=data)\n                self._search_position = 0\n            else:\n                # Update the search start position to be equal to the\n                # current buffer length (already searched) minus a\n                # safe buffer for part of the search target.\n                self._search_position = max(\n                    0, len(self.buffer) - len(self.boundary) - SEARCH_EXTRA_LENGTH\n                )\n\n        elif self.state == State.PART:\n            match = BLANK_LINE_RE.search(self.buffer, self._search_position)\n            if match is not None:\n                headers = self._parse_headers(self.buffer[: match.start()])\n                # The final header ends with a single CRLF, however a\n                # blank line indicates the start of the\n                # body. Therefore the end is after the first CRLF.\n                headers_end = (match.start() + match.end()) // 2\n                del self.buffer[:headers_end]\n\n                if "content-disposition" not in headers:\n                    raise ValueError("Missing Content-Disposition header")\n\n                disposition, extra = parse_options_header(\n                    headers["content-disposition"]\n                )\n                name = t.cast(str, extra.get("name"))\n                filename = extra.get("filename")\n                if filename is not None:\n                    event = File(\n                        filename=filename,\n                        headers=headers,\n                        name=name,\n                    )\n                else:\n                    event = Field(\n                        headers=headers,\n                        name=name,\n                    )\n                self.state = State.DATA_START\n                self._search_position = 0\n                self._parts_decoded += 1\n\n                if self.max_parts is not None and self._parts_decoded > self.max_parts:\n                    raise RequestEntityTooLarge()\n            else:\n                # Update the search start position to be equal to the\n                # current buffer length (already searched) minus a\n                # safe buffer for part of the search target.\n                self._search_position = max(0, len(self.buffer) - SEARCH_EXTRA_LENGTH)\n\n        elif self.state == State.DATA_START:\n            data, del_index, more_data = self._parse_data(self.buffer, start=True)\n            del self.buffer[:del_index]\n            event = Data(data=data, more_data=more_data)\n            if more_data:\n                self.state = State.DATA\n\n        elif self.state == State.DATA:\n            data, del_index, more_data = self._parse_data(self.buffer, start=False)\n            del self.buffer[:del_index]\n            if data or not more_data:\n                event = Data(data=data, more_data=more_data)\n\n        elif self.state == State.EPILOGUE and self.complete:\n            event = Epilogue(data=bytes(self.buffer))\n            del self.buffer[:]\n            self.state = State.COMPLETE\n\n        if self.complete and isinstance(event, NeedData):\n            raise ValueError(f"Invalid form-data cannot parse beyond {self.state}")\n\n        return event\n\n',
+            '    def next_event(self) -> Event:\n        state = self.state\n\n        if state is State.PREAMBLE:\n            event = self._preamble_event()\n        elif state is State.PART:\n            event = self._part_event()\n        elif state in (State.DATA_START, State.DATA):\n            event = self._data_event(first=state is State.DATA_START)\n        elif state is State.EPILOGUE and self.complete:\n            event = Epilogue(data=bytes(self.buffer))\n            self.buffer.clear()\n            self.state = State.COMPLETE\n        else:\n            event = NEED_DATA\n\n        if self.complete and isinstance(event, NeedData):\n            raise ValueError(f"Invalid form-data cannot parse beyond {self.state}")\n\n        return event\n\n    def _remember_searched(self, tail: int) -> Event:\n        # Everything but the last ``tail`` bytes has been searched already.\n        self._search_position = max(len(self.buffer) - tail, 0)\n        return NEED_DATA\n\n    def _preamble_event(self) -> Event:\n        found = self.preamble_re.search(self.buffer, self._search_position)\n\n        if found is None:\n            return self._remember_searched(len(self.boundary) + SEARCH_EXTRA_LENGTH)\n\n        self._search_position = 0\n        self.state = State.EPILOGUE if found.group(1).startswith(b"--") else State.PART\n        preamble = bytes(self.buffer[: found.start()])\n        del self.buffer[: found.end()]\n        return Preamble(data=preamble)\n\n    def _part_event(self) -> Event:\n        found = BLANK_LINE_RE.search(self.buffer, self._search_position)\n\n        if found is None:\n            return self._remember_searched(SEARCH_EXTRA_LENGTH)\n\n        headers = self._parse_headers(self.buffer[: found.start()])\n        # The final header ends with a single CRLF, however a\n        # blank line indicates the start of the\n        # body. Therefore the end is after the first CRLF.\n        del self.buffer[: (found.start() + found.end()) // 2]\n        self._search_position = 0\n\n        if "content-disposition" not in headers:\n            raise ValueError("Missing Content-Disposition header")\n\n        _, extra = parse_options_header(headers["content-disposition"])\n        name = t.cast(str, extra.get("name"))\n        filename = extra.get("filename")\n        self.state = State.DATA_START\n        self._parts_decoded += 1\n\n        if self.max_parts is not None and self._parts_decoded > self.max_parts:\n            raise RequestEntityTooLarge()\n\n        if filename is None:\n            return Field(headers=headers, name=name)\n\n        return File(filename=filename, headers=headers, name=name)\n\n    def _data_event(self, *, first: bool) -> Event:\n        payload, consumed, more_data = self._parse_data(self.buffer, start=first)\n        del self.buffer[:consumed]\n\n        if first and more_data:\n            self.state = State.DATA\n\n        if first or payload or not more_data:\n            return Data(data=payload, more_data=more_data)\n\n        return NEED_DATA\n\n'),
+    ]},
+]
+
+# ---------------------------------------------------------------------------
+# round 2 (continued): classes / states named by constants
+
+MUTANTS += [
+    {"name": 'terminal-classes-constant-includes-data', "expect": 'R1.3', "edits": [
+        (F, '            event = parser.next_event()\n            while not isinstance(event, (Epilogue, NeedData)):\n',
+            '            event = parser.next_event()\n            while not isinstance(event, _TERMINAL_EVENTS):\n'),
+        (F, 'class FormDataParser:\n',
+            '_TERMINAL_EVENTS = (Epilogue, NeedData, Data)\n\n\nclass FormDataParser:\n'),
+    ]},
+]
+
+TWINS += [
+    {"name": 'terminal-event-classes-named-by-a-module-constant', "edits": [
+        (F, '            event = parser.next_event()\n            while not isinstance(event, (Epilogue, NeedData)):\n',
+            '            event = parser.next_event()\n            while not isinstance(event, _TERMINAL_EVENTS):\n'),
+        (F, 'class FormDataParser:\n',
+            '_TERMINAL_EVENTS = (Epilogue, NeedData)\n\n\nclass FormDataParser:\n'),
+    ]},
+    {"name": 'drain-test-on-a-union-type', "edits": [
+        (F, '            event = parser.next_event()\n            while not isinstance(event, (Epilogue, NeedData)):\n',
+            '            event = parser.next_event()\n            while not isinstance(event, Epilogue | NeedData):\n'),
+    ]},
+    {"name": 'state-set-named-by-a-module-constant', "edits": [
+        (M, '        elif self.state == State.PART:',
+            '        elif self.state in _HEADER_STATES:'),
+        (M, 'class MultipartDecoder:\n',
+            '_HEADER_STATES = frozenset({State.PART})\n\n\nclass MultipartDecoder:\n'),
+    ]},
+    {"name": 'state-set-named-by-a-class-constant', "edits": [
+        (M, '        elif self.state == State.PART:',
+            '        elif self.state in self._HEADER_STATES:'),
+        (M, '    def last_newline(self, data: bytes) -> int:',
+            '    _HEADER_STATES = (State.PART,)\n\n    def last_newline(self, data: bytes) -> int:'),
+    ]},
+]
